@@ -79,3 +79,20 @@ func TestSplitLinesAndEncode(t *testing.T) {
 		t.Errorf("sub-ms retry must write nothing")
 	}
 }
+
+func TestBOMOnlyFirstLineOpensABlock(t *testing.T) {
+	r := Interpret([]byte("\xEF\xBB\xBF\n\ndata: x\n\n"), "", Read)
+	want := []Block{{0, 5, -1, true}, {5, 14, 0, true}}
+	if !reflect.DeepEqual(r.Blocks, want) || len(r.Events) != 1 || r.Events[0].Data != "x" {
+		t.Errorf("blocks %+v events %+v", r.Blocks, r.Events)
+	}
+	// a stream that is just a BOM is an empty stream
+	r = Interpret([]byte("\xEF\xBB\xBF"), "", Read)
+	if r.UnexpectedEOF || len(r.Events) != 0 {
+		t.Errorf("a lone BOM is an empty stream: %+v", r)
+	}
+	r = Interpret([]byte("\xEF\xBB\xBFx"), "", Read)
+	if !r.UnexpectedEOF {
+		t.Errorf("BOM + unterminated line: %+v", r)
+	}
+}
